@@ -39,15 +39,23 @@ pub enum Kind {
     DespiteSized(u64, bool),
     /// GET whose `transfer-encoding: chunked` is added with `Flow::header()` before `send_body_despite_method()` (Flow only)
     DespiteChunkedHeaderFirst,
+    /// POST, chunked by default; the head is written in three pieces and `SendRequest::write` is called twice more after the head
+    /// is complete (a "write until 0" driver): those calls emit nothing and must not touch the body (Flow only)
+    DefaultChunkedExtraHeadWrites,
+    /// PUT with `content-length: n`, same driver (Flow only)
+    SizedExtraHeadWrites(u64),
 }
 
 impl Kind {
     pub fn is_chunked(self) -> bool {
-        !matches!(self, Kind::Sized(_) | Kind::SizedAndHost(_) | Kind::SizedViaAwait100(..) | Kind::DespiteSized(..))
+        !matches!(self, Kind::Sized(_) | Kind::SizedAndHost(_) | Kind::SizedViaAwait100(..) | Kind::DespiteSized(..) | Kind::SizedExtraHeadWrites(_))
     }
 
     pub fn flow_only(self) -> bool {
-        matches!(self, Kind::DespiteGet | Kind::ViaAwait100 { .. } | Kind::SizedViaAwait100(..) | Kind::DespiteSized(..) | Kind::DespiteChunkedHeaderFirst)
+        matches!(
+            self,
+            Kind::DespiteGet | Kind::ViaAwait100 { .. } | Kind::SizedViaAwait100(..) | Kind::DespiteSized(..) | Kind::DespiteChunkedHeaderFirst | Kind::DefaultChunkedExtraHeadWrites | Kind::SizedExtraHeadWrites(_)
+        )
     }
 }
 
@@ -109,6 +117,8 @@ impl Sender {
             Kind::SizedViaAwait100(n, _) => b.method(Method::PUT).header("Expect", "100-continue").header("content-length", n.to_string()),
             Kind::DespiteSized(..) => b.method(Method::DELETE),
             Kind::DespiteChunkedHeaderFirst => b.method(Method::GET),
+            Kind::DefaultChunkedExtraHeadWrites => b.method(Method::POST),
+            Kind::SizedExtraHeadWrites(n) => b.method(Method::PUT).header("content-length", n.to_string()),
         };
         let req = b.body(()).map_err(|e| e.to_string())?;
         let mut head = [0u8; 512];
@@ -134,7 +144,27 @@ impl Sender {
                     _ => {}
                 }
                 let mut f = f.proceed();
-                f.write(&mut head).map_err(|e| format!("head write: {:?}", e))?;
+                if matches!(kind, Kind::DefaultChunkedExtraHeadWrites | Kind::SizedExtraHeadWrites(_)) {
+                    // a driver that keeps calling write until it returns 0: small buffers first, then two calls after completion
+                    let mut guard = 0;
+                    while !f.can_proceed() && guard < 64 {
+                        guard += 1;
+                        let size = if guard <= 2 { 30 } else { 512 };
+                        match f.write(&mut head[..size]) {
+                            Ok(_) => {}
+                            Err(Error::OutputOverflow) => {}
+                            Err(e) => return Err(format!("head write: {:?}", e)),
+                        }
+                    }
+                    for _ in 0..2 {
+                        let n = f.write(&mut head).map_err(|e| format!("head write after completion: {:?}", e))?;
+                        if n != 0 {
+                            return Err(format!("SendRequest::write emitted {} bytes after the head was complete", n));
+                        }
+                    }
+                } else {
+                    f.write(&mut head).map_err(|e| format!("head write: {:?}", e))?;
+                }
                 match f.proceed().map_err(|e| format!("SendRequest::proceed: {:?}", e))? {
                     Some(SendRequestResult::SendBody(f)) => Ok(Sender::Flow(f)),
                     Some(SendRequestResult::Await100(mut a)) => {
